@@ -90,3 +90,82 @@ pub fn batches(_a: &Value) -> Value {
     json!({"scenario":"c02_batches","observed":{"shapes":shapes.len(),"deviations":bad.iter().take(4).collect::<Vec<_>>()},"violation":violation,
            "why": if violation {"a batch reply is not one array with exactly one reply per call / invalid entry (or a config gate misfires)"} else {""}})
 }
+
+/// A batch over WebSocket that contains a subscribe call (and optionally its unsubscribe): every response to a batch entry must be
+/// delivered inside the one reply array and nowhere else. args {entries: ["sub" | "call" | "unsub-unknown" | "notification", ...]}
+pub fn ws_batch_with_subscription(a: &Value) -> Value {
+    use jsonrpsee_server::Server;
+    use tokio::net::TcpStream;
+    use tokio_util::compat::TokioAsyncReadCompatExt;
+    let entries: Vec<String> = a["entries"].as_array().map(|v| v.iter().filter_map(|x| x.as_str().map(|s| s.to_string())).collect()).unwrap_or_else(|| vec!["sub".into(), "call".into()]);
+    let rt = tokio::runtime::Builder::new_multi_thread().worker_threads(2).enable_all().build().unwrap();
+    rt.block_on(async move {
+        let mut m = RpcModule::new(());
+        m.register_method("echo", |p, _, _| p.one::<u64>().unwrap_or(0)).unwrap();
+        m.register_subscription("sub", "item", "unsub", |_, pending, _, _| async move {
+            if let Ok(sink) = pending.accept().await {
+                sink.closed().await;
+            }
+        })
+        .unwrap();
+        let server = Server::builder().build("127.0.0.1:0").await.unwrap();
+        let addr = server.local_addr().unwrap();
+        let handle = server.start(m);
+        let sock = TcpStream::connect(addr).await.unwrap();
+        let host = addr.to_string();
+        let mut client = soketto::handshake::Client::new(sock.compat(), &host, "/");
+        match client.handshake().await.unwrap() {
+            soketto::handshake::ServerResponse::Accepted { .. } => {}
+            r => panic!("handshake: {r:?}"),
+        }
+        let (mut tx, mut rx) = client.into_builder().finish();
+        let (ftx, mut frx) = tokio::sync::mpsc::unbounded_channel::<Value>();
+        tokio::spawn(async move {
+            let mut buf = Vec::new();
+            loop {
+                buf.clear();
+                match rx.receive_data(&mut buf).await {
+                    Ok(_) => {
+                        if ftx.send(serde_json::from_slice::<Value>(&buf).unwrap_or(Value::Null)).is_err() {
+                            break;
+                        }
+                    }
+                    Err(_) => break,
+                }
+            }
+        });
+        let batch: Vec<Value> = entries
+            .iter()
+            .enumerate()
+            .map(|(i, k)| match k.as_str() {
+                "sub" => json!({"jsonrpc":"2.0","id":i,"method":"sub","params":[]}),
+                "unsub-unknown" => json!({"jsonrpc":"2.0","id":i,"method":"unsub","params":[123456789]}),
+                "notification" => json!({"jsonrpc":"2.0","method":"echo","params":[i]}),
+                _ => json!({"jsonrpc":"2.0","id":i,"method":"echo","params":[i]}),
+            })
+            .collect();
+        let answered: Vec<usize> = entries.iter().enumerate().filter(|(_, k)| k.as_str() != "notification").map(|(i, _)| i).collect();
+        tx.send_text(Value::Array(batch).to_string()).await.unwrap();
+        tx.flush().await.unwrap();
+        let mut frames = vec![];
+        while let Ok(Some(v)) = tokio::time::timeout(std::time::Duration::from_millis(400), frx.recv()).await {
+            frames.push(v);
+        }
+        let _ = handle.stop();
+        let mut why = vec![];
+        let arrays: Vec<&Value> = frames.iter().filter(|f| f.is_array()).collect();
+        let outside: Vec<&Value> = frames.iter().filter(|f| !f.is_array() && f.get("id").is_some()).collect();
+        if arrays.len() != 1 {
+            why.push(format!("{} reply arrays for one batch", arrays.len()));
+        } else {
+            let ids: Vec<u64> = arrays[0].as_array().unwrap().iter().filter_map(|r| r["id"].as_u64()).collect();
+            if ids != answered.iter().map(|i| *i as u64).collect::<Vec<_>>() {
+                why.push(format!("the reply array answers ids {ids:?}, the batch's call entries are {answered:?}"));
+            }
+        }
+        if !outside.is_empty() {
+            why.push(format!("{} response(s) to batch entries were delivered outside the reply array: {}", outside.len(), outside[0]));
+        }
+        json!({"scenario":"c02_ws_batch_with_subscription","observed":{"frames":frames.len(),"entries":entries},"violation":!why.is_empty(),"why":why.join(" | ")})
+    })
+}
